@@ -10,7 +10,9 @@
 (*   {"k":"shape","case":shapes.., res, tris, pos, fd}                     *)
 (*        union of marching.Sphere/Box/Line marched at case.cpu and        *)
 (*        case.cut/1000; pos relative to case.org in 1/case.scale units,   *)
-(*        fd[v] = (true union field at vertex v - threshold) * 1000        *)
+(*        fd[v] = (true union field at vertex v - threshold) * 1000,       *)
+(*        off[v] = offset of vertex v from the nearest lattice point in    *)
+(*        1e-5 cells                                                       *)
 (*   {"k":"prim", "case":tuple, res, exact, tris, pos, cls, nrm}           *)
 (*        one solid primitive; pos * case.scale, cls = position class of   *)
 (*        every vertex (coincident positions merged at 1e-6), nrm = vertex *)
@@ -80,7 +82,7 @@ ShapeBad(ln) ==
     LET c == ln.case
         T == ln.tris
     IN IF ln.res # "OK" THEN {"C09.Completes"}
-       ELSE IF ~IndexOK(ln) \/ Len(ln.fd) # Len(ln.pos) THEN {"C09.WellFormed"}
+       ELSE IF ~IndexOK(ln) \/ Len(ln.fd) # Len(ln.pos) \/ Len(ln.off) # Len(ln.pos) THEN {"C09.WellFormed"}
        ELSE LET G == Geo(T, ln.pos)
             IN Topology("C09", T)
                \* the case's scale maps twice the shapes' bounding box into the budget:
@@ -88,6 +90,35 @@ ShapeBad(ln) ==
                \cup (IF ~GeoInBudget(G) THEN {"C09.WithinCell"}
                      ELSE IF T = <<>> \/ VolPositive(G) THEN {} ELSE {"C09.Outward"})
                \cup (IF \A v \in UsedVerts(T) : WithinCell(c, ln.fd[v + 1]) THEN {} ELSE {"C09.WithinCell"})
+
+(***************************************************************************)
+(* Classification of a rejected shape line (for the signature only, never  *)
+(* for the verdict).  The marcher identifies surface vertices by their     *)
+(* position rounded to 1e-4 cell (LookupOrAdd inside a block, the final    *)
+(* weld across blocks).  Two different vertices closer than that to one    *)
+(* lattice point are merged; if they lie on opposite sides of it the       *)
+(* surface is pinched and a directed edge is used twice.  A line is        *)
+(* classified "vertex-merge" when this is the whole story: pairing still   *)
+(* holds and every doubly used directed edge has an end point within 1e-4  *)
+(* cell of a lattice point (ln.off is in 1e-5 cells).  Anything else       *)
+(* (flipped faces, merges farther from the lattice - the old world-unit    *)
+(* weld -, holes) keeps the ordinary signature.                            *)
+(***************************************************************************)
+DoubleEdges(T) ==
+    LET E == DirEdges(T)
+        \* TLC enumerates a normalised set in sorted order, so equal edges are neighbours;
+        \* `complete` re-checks that by counting, independently of the enumeration order
+        s == SetToSeq({<<E[i][1], E[i][2], i>> : i \in DOMAIN E})
+        adj == {i \in 1..(Len(s) - 1) : s[i][1] = s[i + 1][1] /\ s[i][2] = s[i + 1][2]}
+    IN [edges |-> {<<s[i][1], s[i][2]>> : i \in adj},
+        complete |-> Cardinality(EdgeSet(T)) + Cardinality(adj) = Len(E)]
+AtLatticePoint(off) == \A j \in 1..3 : AbsI(off[j]) <= 10
+ShapeClass(ln, bad) ==
+    IF bad # {"C09.Oriented"} THEN "none"
+    ELSE LET d == DoubleEdges(ln.tris)
+         IN IF d.complete /\ d.edges # {}
+               /\ \A e \in d.edges : AtLatticePoint(ln.off[e[1] + 1]) \/ AtLatticePoint(ln.off[e[2] + 1])
+            THEN "vertex-merge" ELSE "none"
 
 (* ------------------------- C18: primitives ---------------------------- *)
 \* positions of the classes, classes being numbered in order of first appearance
@@ -163,7 +194,7 @@ Shape ==
     /\ l <= Len(Trace) /\ Trace[l].k = "shape"
     /\ LET ln == Trace[l]
            bad == ShapeBad(ln)
-       IN /\ Report(bad, [unpaired |-> Some(Unpaired(ln.tris)), res |-> ln.res])
+       IN /\ Report(bad, [unpaired |-> Some(Unpaired(ln.tris)), res |-> ln.res, class |-> ShapeClass(ln, bad)])
           /\ cnt' = [cnt EXCEPT !.shape = @ + 1, !.shapetris = @ + Len(ln.tris),
                                 !.shapeverts = @ + Cardinality(UsedVerts(ln.tris))]
     /\ prev' = prev /\ AtEnd
